@@ -1,7 +1,7 @@
 import re
 
 from prophyc import model
-from prophyc.generators.base import GenerateError, GeneratorBase, TranslatorBase, check_cpp_names, CPP_RAW_RUNTIME_NAMES
+from prophyc.generators.base import GenerateError, GeneratorBase, TranslatorBase, check_cpp_names, check_cpp_file_name, CPP_RAW_RUNTIME_NAMES
 
 primitive_types = {
     'u8': 'uint8_t',
@@ -405,6 +405,9 @@ class CppGenerator(GeneratorBase):
         ".pp.hpp": _HppTranslator,
         ".pp.cpp": _CppSwapTranslator
     }
+
+    def check_file_name(self, base_name):
+        check_cpp_file_name(base_name)
 
     def check_nodes(self, nodes):
         """ the blocks of a dynamic struct are nested structs part2, part3, ...; a union holds `enum _discriminator` """
